@@ -784,6 +784,16 @@ impl<'a> CmdFs for CmdView<'a>
         self.sys.chmod_inner(path, true).is_ok() && self.sys.lock().file_inode(path).is_some()
     }
 
+    fn copy_mtime(&mut self, from: &str, to: &str)
+    {
+        let mut g = self.sys.lock();
+        if let (Some(a), Some(b)) = (g.file_inode(from), g.file_inode(to))
+        {
+            let m = g.inodes[a].mtime;
+            g.inodes[b].mtime = m;
+        }
+    }
+
     fn exists(&mut self, path: &str) -> bool
     {
         let mut g = self.sys.lock();
